@@ -260,6 +260,85 @@ def greedy_p_vc(batch_first):
                            "log domain with lengths given, T >= 1 (probability domain uses prod, omitted lengths and T = 0: S rung and bounded driver); float arithmetic treated as real arithmetic"])
 
 
+def walk_step_p_vc():
+    """P rung: random_walk_advance (prefix lengths given) for SYMBOLIC batch size N, vocabulary V and number of prefix rows S.
+    torch.multinomial(weights = exp(step scores), 1 draw) is under CONTRACT: the drawn label of every element is in range and has
+    positive weight, i.e. its step score is not -inf (each row has a finite score - precondition; which positive-weight label is drawn
+    is arbitrary). Postcondition at a skolem element / row: the drawn label is written at the element's length (rows below it unchanged;
+    rows beyond are not part of the path), the path tensor grows by one row exactly when some prefix is full, the new score is the old
+    one plus the (finite) step score of the drawn label."""
+    import pydrobert.torch._decoding as D
+    from vf.pyvc import symtensor as stn
+
+    z = ip.to_z3
+    N, V, S, N0, R0, A0 = z3.Ints("N V S n0 r0 a0")
+    Iz, Rz, Bz = z3.IntSort(), z3.RealSort(), z3.BoolSort()
+    LTF, LT, LP, Y, LEN, DRAW = (z3.Function(nm, *so) for nm, so in (("step_score_is_minus_inf", (Iz, Iz, Bz)), ("step_score", (Iz, Iz, Rz)), ("score", (Iz, Rz)), ("y_prev", (Iz, Iz, Iz)), ("y_prev_lens", (Iz, Iz)), ("drawn", (Iz, Iz))))
+    n_ = z3.Int("n_q")
+    len_ok = lambda n: z3.Implies(z3.And(0 <= n, n < N), z3.And(0 <= LEN(n), LEN(n) <= S))
+    draw_ok = lambda n: z3.Implies(z3.And(0 <= n, n < N), z3.And(0 <= DRAW(n), DRAW(n) < V, z3.Not(LTF(n, DRAW(n)))))
+
+    def thunk(I):
+        I.stubs.update(stn.stubs())
+        lt = stn.ST((N, V), lambda n, v: ct.NegGuarded(LTF(z(n), z(v)), LT(z(n), z(v))), "float")
+        lp = stn.ST((N,), lambda n: LP(z(n)), "float")
+        y = stn.ST((S, N), lambda r, n: Y(z(r), z(n)), "long")
+        lens = stn.ST((N,), lambda n: LEN(z(n)), "long")
+        weights = []
+
+        def exp_(I2, t):
+            w = stn.ST(t.shape, lambda *idx: z3.RealVal(0), "float")
+            w.exp_of = t
+            weights.append(w)
+            return w
+
+        def multinomial(I2, w, num, replacement=False, **kw):
+            I2.ex.oblige("structure.multinomial.one_draw_from_the_exponentiated_step_scores", z3.BoolVal(getattr(w, "exp_of", None) is lt and num == 1))
+            I2.ex.assume(z3.ForAll([n_], draw_ok(n_)))
+            for a in (N0, A0):
+                I2.ex.instance(draw_ok(a))
+            return stn.ST((N, 1), lambda n, j: DRAW(z(n)), "long")
+
+        I.ex.ghost["method_overrides"] = {"exp": exp_}
+        I.stubs["torch.multinomial"] = multinomial
+        I.ex.ghost["skolem_hooks"] = [lambda ii: [len_ok(a) for a in ii] + [draw_ok(a) for a in ii]]
+        I.ex.ghost["any_points"] = {1: [(N0,), (A0,)]}
+        for a in (N0, A0):
+            I.ex.instance(len_ok(a))
+        out = I.call(D.random_walk_advance, [lt, lp, y, lens], {})
+        for mx in I.ex.ghost.get("maxes", []):
+            for a in (N0, A0):
+                I.ex.instance(mx["ub"](a))
+            if not isinstance(mx["argmax"], list):
+                I.ex.instance(len_ok(mx["argmax"]))
+        I.ex.ghost["maxes_"] = I.ex.ghost.get("maxes", [])
+        return out
+
+    def post(p):
+        if not api.returns(p) or not isinstance(p.value, tuple) or len(p.value) != 2:
+            return False
+        y2, lp2 = p.value
+        Bz_ = lambda c: z3.BoolVal(c) if isinstance(c, bool) else c
+        rows = z(y2.shape[0])
+        mxs = p.ghost.get("maxes_", [])
+        at = z3.And(0 <= N0, N0 < N)
+        return [("result_shapes", z3.And(z3.BoolVal(len(y2.shape) == 2 and len(lp2.shape) == 1), z(y2.shape[1]) == N, z(lp2.shape[0]) == N, z3.Or(rows == S, rows == S + 1))),
+                ("path_tensor_grows_exactly_when_some_prefix_is_full", z3.And(z3.Implies(z3.And(0 <= A0, A0 < N, LEN(A0) == S), rows == S + 1),
+                                                                             z3.Implies(rows == S + 1, z3.And([z3.And(0 <= mx["argmax"], mx["argmax"] < N, LEN(mx["argmax"]) == S) for mx in mxs if not isinstance(mx["argmax"], list)] or [S == 0])))),
+                ("drawn_label_has_a_finite_step_score_which_is_added", z3.Implies(at, z3.And(0 <= DRAW(N0), DRAW(N0) < V, z3.Not(LTF(N0, DRAW(N0))), z3.Not(Bz_(ct.ng_split(lp2.elem(N0))[0])), z(ct.ng_split(lp2.elem(N0))[1]) == LP(N0) + LT(N0, DRAW(N0))))),
+                ("drawn_label_written_at_the_length", z3.Implies(z3.And(at, 0 <= R0, R0 <= LEN(N0)), z3.And(LEN(N0) < rows, z(y2.elem(R0, N0)) == z3.If(R0 == LEN(N0), DRAW(N0), Y(R0, N0)))))]
+
+    pre = [N >= 1, V >= 1, S >= 0, z3.ForAll([n_], len_ok(n_))]
+    return VC("C07.P.walk_step", "random_walk_advance[symbolic N, V, rows; prefix lengths given]", M, "random_walk_advance", thunk, pre=pre, posts=[("one_step_of_the_walk", post)], inputs={"N": N, "V": V, "S": S},
+              timeout_ms=40000, max_paths=64, witness_hints=[N == 1, V == 2, S == 1],
+              assumptions=["torch.multinomial(exp(scores), one draw): the drawn label is in range and has a non -inf score (assumed contract; every row has a finite score); which such label is drawn is arbitrary",
+                           "max over the lengths: an attained upper bound; gather / scatter / cat as index functions (vf/pyvc/symtensor.py); float arithmetic treated as real arithmetic, -inf as a flag"])
+
+
+def walk_p_vcs(ctx):
+    return [walk_step_p_vc()]
+
+
 def greedy_p_vcs(ctx):
     return [greedy_p_vc(True), greedy_p_vc(False)]
 
